@@ -525,6 +525,16 @@ impl<TokenIter: Iterator<Item = Result<Token>>> Parser<TokenIter> {
         datum: Datum,
         syntax_env: &Rc<LexicalScope<Transformer>>,
     ) -> Result<Statement> {
+        Self::transform_to_statement_in(datum, syntax_env, false)
+    }
+
+    // expression_only: the datum stands where only an expression is accepted, so a macro
+    // definition there is rejected before it is entered into the syntax table
+    fn transform_to_statement_in(
+        datum: Datum,
+        syntax_env: &Rc<LexicalScope<Transformer>>,
+        expression_only: bool,
+    ) -> Result<Statement> {
         let location = datum.location;
         Ok(match datum.data {
             DatumBody::Primitive(p) => ExpressionBody::Primitive(p).locate(location).into(),
@@ -562,6 +572,12 @@ impl<TokenIter: Iterator<Item = Result<Token>>> Parser<TokenIter> {
                                     .locate(datum.location)
                                     .into(),
                                 "define-syntax" => {
+                                    if expression_only {
+                                        return error!(SyntaxError::ExpectSomething(
+                                            "expression".to_string(),
+                                            "other statement".to_string(),
+                                        ));
+                                    }
                                     Self::transform_syntax_definition(pair.into_iter(), syntax_env)?
                                         .locate(datum.location)
                                         .into()
@@ -588,7 +604,11 @@ impl<TokenIter: Iterator<Item = Result<Token>>> Parser<TokenIter> {
                                         if expanded_datum.location.is_none() {
                                             expanded_datum.location = location;
                                         }
-                                        Self::transform_to_statement(expanded_datum, syntax_env)?
+                                        Self::transform_to_statement_in(
+                                            expanded_datum,
+                                            syntax_env,
+                                            expression_only,
+                                        )?
                                     } else {
                                         Self::transform_procedure_call(
                                             first,
@@ -623,7 +643,7 @@ impl<TokenIter: Iterator<Item = Result<Token>>> Parser<TokenIter> {
         datum: Datum,
         syntax_env: &Rc<LexicalScope<Transformer>>,
     ) -> Result<Expression> {
-        match Self::transform_to_statement(datum, syntax_env)? {
+        match Self::transform_to_statement_in(datum, syntax_env, true)? {
             Statement::Expression(expression) => Ok(expression),
             _ => error!(SyntaxError::ExpectSomething(
                 "expression".to_string(),
@@ -1088,7 +1108,11 @@ impl<TokenIter: Iterator<Item = Result<Token>>> Parser<TokenIter> {
                     let location = name.location;
                     let name = Self::transform_identifier(name)?;
                     let formals = Self::transform_formals(formals)?;
-                    let (defs, exprs) = Self::transform_procedure_body(datums, syntax_env)?;
+                    // as for a lambda expression: a macro definition in the body is rejected,
+                    // and must not reach the enclosing syntax table before that
+                    let body_syntax_env = Rc::new(LexicalScope::new_child(syntax_env.clone()));
+                    let (defs, exprs) =
+                        Self::transform_procedure_body(datums, &body_syntax_env)?;
                     let procedure =
                         ExpressionBody::Procedure(SchemeProcedure(formals, defs, exprs))
                             .locate(location);
